@@ -396,6 +396,7 @@ func Supervise(o Options) int {
 		vios    []vioRec
 		crashes []crashRec
 		incon   map[string]int
+		inconAt []map[string]any // case index and reason of every watchdog / memory-guard kill
 	}
 	results := make([]wres, workers)
 	var wg sync.WaitGroup
@@ -425,8 +426,10 @@ func Supervise(o Options) int {
 					switch {
 					case mem:
 						r.incon["memory-guard"]++
+						r.inconAt = append(r.inconAt, map[string]any{"index": lastStarted, "reason": "memory-guard"})
 					case killed:
 						r.incon["watchdog"]++
+						r.inconAt = append(r.inconAt, map[string]any{"index": lastStarted, "reason": "watchdog"})
 					default:
 						r.crashes = append(r.crashes, crashRec{Index: lastStarted, Stderr: tail})
 					}
@@ -452,6 +455,7 @@ func Supervise(o Options) int {
 	keys := map[string]struct{}{}
 	var vios []vioRec
 	var crashes []crashRec
+	inconAt := []map[string]any{}
 	for _, r := range results {
 		for _, a := range r.aggs {
 			total.Evals += a.Evals
@@ -472,6 +476,7 @@ func Supervise(o Options) int {
 		for k, v := range r.incon {
 			total.Inconclusive[k] += v
 		}
+		inconAt = append(inconAt, r.inconAt...)
 		vios = append(vios, r.vios...)
 		crashes = append(crashes, r.crashes...)
 	}
@@ -574,6 +579,7 @@ func Supervise(o Options) int {
 		"samples":             samples,
 		"observed":            total.Obs,
 		"inconclusive":        total.Inconclusive,
+		"inconclusive_cases":  inconAt,
 		"known_findings_hit":  knownHits,
 		"workers":             workers,
 	}
